@@ -1,15 +1,31 @@
 #!/bin/bash
-# seed_matrix.sh : run the quick check of the owning property against every kept seeded change; one line per seed
+# seed_matrix.sh [shards] : for every kept seeded change, (1) re-confirm it on the current /repo HEAD (suite passes with
+# it, its demonstration fails with it and passes without it) and (2) run the quick check of the owning property against
+# it. One line per seed in seeded/RESULTS.txt. Shards run in parallel; wall-clock budgets of the checks are stretched.
 cd "$(dirname "$0")"
+shards=${1:-3}
+export VERIF_TIME_MULT=$((shards+1))
 out=seeded/RESULTS.txt
-: > $out.tmp
-for d in seeded/*/; do
-  name=$(basename $d)
-  prop=$(python3 -c "import json;print(json.load(open('$d/meta.json'))['property'])")
-  res=$(./seedtool.sh run $name $prop quick 2>&1)
-  rc=$(echo "$res" | grep -o "exit=[0-9]*" | head -1)
-  nv=$(echo "$res" | grep -c "obligation=")
-  ob=$(echo "$res" | grep "obligation=" | sed 's/.*obligation=\([^ ]*\).*/\1/' | sort -u | head -3 | tr '\n' ' ')
-  echo "$name property=$prop $rc violations_reported=$nv obligations: $ob" | tee -a $out.tmp
+ls -d seeded/*/ | xargs -n1 basename > /tmp/seed_names.txt
+rm -f /tmp/seed_shard_*.out
+for s in $(seq 0 $((shards-1))); do
+  (
+  i=0
+  while read name; do
+    if [ $((i % shards)) -eq $s ]; then
+      prop=$(python3 -c "import json;print(json.load(open('seeded/$name/meta.json'))['property'])")
+      cp -r seeded/$name /tmp/svsrc_$name
+      ver=$(SEED_VERIFY_NOWRITE=1 ./seedtool.sh verify /tmp/svsrc_$name $name 2>&1 | grep -c "^CONFIRMED")
+      rm -rf /tmp/svsrc_$name
+      res=$(./seedtool.sh run $name $prop quick 2>&1)
+      rc=$(echo "$res" | grep -o "exit=[0-9]*" | head -1)
+      nv=$(echo "$res" | grep -c "obligation=")
+      ob=$(echo "$res" | grep "obligation=" | sed 's/.*obligation=\([^ ]*\).*/\1/' | sort -u | head -3 | tr '\n' ' ')
+      echo "$name property=$prop still_valid_on_head=$ver $rc violations_reported=$nv obligations: $ob" >> /tmp/seed_shard_$s.out
+    fi
+    i=$((i+1))
+  done < /tmp/seed_names.txt
+  ) &
 done
-mv $out.tmp $out
+wait
+cat /tmp/seed_shard_*.out | sort > $out
